@@ -61,3 +61,11 @@ Proof. left. revert q acc. induction n as [|n IH]; intros q acc; [reflexivity|].
 Qed.
 Lemma take_batch_order n q acc : fst (take_batch n q acc) ++ pks (snd (take_batch n q acc)) = acc ++ pks q.
 Proof. destruct (take_batch_conserves n q acc) as [H | (a & b & _ & H)]; exact H. Qed.
+
+(* ---- after the connection has ended nothing of a payload is handled any more (fix D29) ---- *)
+Lemma receive_all_not_connected me l s : connected s = false -> receive_all me l s = (tt, s, []).
+Proof.
+  unfold connected. intros C. destruct l as [|p r]; [reflexivity|].
+  cbn [receive_all]. unfold bind, getst. cbv beta iota. destruct (state s); [reflexivity | discriminate | reflexivity].
+Qed.
+
